@@ -260,6 +260,19 @@ def r4_utf8_and_status(ctx):
     from ..panics import label_names
     by_match = [b for b in sorted(f.live) for st in f.blocks[b]["s"] if st["rv"]["k"] == "agg" and st["rv"].get("variant") == "InvalidUtf8"
                 and any(f.switch_info(S)["kind"] == "discr" and "from_utf8(" in sh(ne(f.deep(f.blocks[S]["t"]["d"]))) and label_names(f, S, al, f.switch_info(S)) == {"Err"} for S, al in f.constraints(b))]
+    # ... and on *every* way out of that outcome: an arm with a guard that lets some invalid input through to the Ok return
+    # (a text cut inside a character, say) is not a mapping to InvalidUtf8
+    if by_match:
+        cand = [S for S in sorted(f.live) if f.blocks[S]["t"]["k"] == "switch" and f.switch_info(S)["kind"] == "discr" and "from_utf8(" in sh(ne(f.deep(f.blocks[S]["t"]["d"])))]
+        # (the match itself, not the drop-elaboration test of the same value that follows it)
+        cand = [S for S in cand if not any(S2 != S and f.dominates(S2, S) for S2 in cand)]
+        for S in cand:
+            si = f.switch_info(S)
+            if True:
+                err_targets = [tgt for lab, tgt in f.succ[S] if label_names(f, S, [lab], si) == {"Err"}]
+                if any(f.blocks[x]["t"]["k"] == "return" for x in f.reach(err_targets, removed_nodes=by_match + [S])):
+                    by_match = []
+                    break
     if clo is not None and "InvalidUtf8" in json.dumps(clo.m["blocks"]):
         ctx.ok("utf8|error-kind", clo.where(), "maps to ProcessError::InvalidUtf8(stream)")
     elif by_match:
